@@ -2071,6 +2071,8 @@ func runCase(raw json.RawMessage) interface{} {
 			o = runBridgeStall(c)
 		case "bridge_startrace":
 			o = runBridgeStartRace(c)
+		case "bridge_throttle":
+			o = runBridgeThrottle(c)
 		case "res_mgr":
 			o = runResMgr(c)
 		case "session_overlap":
